@@ -62,9 +62,38 @@ PT = ["any", "win_amd64", "win32", "manylinux2014_x86_64", "manylinux_2_28_x86_6
 WHEELS = [(a, b, c) for (a, b) in PY for c in PT]
 
 
+# requires_python with an explicit epoch (seeded change C16_h: `==1!3.8.*` lost the epoch of its lower bound).  All
+# bounds are finals X.Y / X.Y.0, so every cell between two consecutive bounds holds one of the probe points below and
+# "A admits a subset of B" is decided exactly by packaging on the probes.
+EPOCH_RPS = ["==1!3.8.*", ">=1!3.8.0,<1!3.9.0", "~=1!3.8.0", ">=1!3.8", ">=1!0", "!=1!3.8.*", "==1!3.*", "<1!3.9", ">=3.8", ">=3.9,<3.10", "<3.12", "",
+             ">=1!3.8,<1!3.10", "==1!3.9.*", ">=3.8,<1!3.9", "!=1!3.9.*,>=1!3.8", "<1!0", ">=2!0", "==3.8.*", "!=3.8.*"]
+_EPOCH_PROBES = [f"{e}{x}.{y}.{z}{sub}" for e in ("", "1!", "2!") for x in (0, 2, 3, 4) for y in range(0, 16) for z in (0, 1) for sub in ("", ".1")]
+_epoch_adm: dict = {}
+
+
+def epoch_admit(text):
+    a = _epoch_adm.get(text)
+    if a is None:
+        from packaging.specifiers import SpecifierSet
+
+        sp = SpecifierSet(text)
+        a = _epoch_adm[text] = frozenset(v for v in _EPOCH_PROBES if sp.contains(v))
+    return a
+
+
+def epoch(acc, g):
+    acc.exhaustive_layers.add("L1-epoch")
+    mod = sys.modules[MOD]
+    pi, ii = g
+    for a, b in itertools.product(EPOCH_RPS, repeat=2):
+        harness.process(mod, acc, "epoch", {"a": a, "b": b, "plat": PLATS[pi], "impl": IMPLS[ii]}, "L1-epoch", isolate=False)
+
+
 def tasks(tier, seed):
     groups = [(pi, ii) for pi in range(len(PLATS)) for ii in range(len(IMPLS))]
     t = [(MOD, "mono", (g,)) for g in groups]
+    eplats = [PLATS.index(p) for p in ((None, "manylinux_2_17_x86_64") if tier == "quick" else (None, "manylinux_2_17_x86_64", "macos_12_0_arm64", "windows"))]
+    t += [(MOD, "epoch", ((pi, ii),)) for pi in eplats for ii in range(len(IMPLS))]
     t += [(MOD, "cmp", (i, 32)) for i in range(32)]
     t.append((MOD, "nest", ()))
     n = 480 if tier == "quick" else 9600
@@ -184,6 +213,25 @@ def evaluate(kind, case, acc):
         tb = None if B.platform is None else frozenset(B.platform.compatible_tags)
         for b in compare_laws(A, B, ta, tb, case["a"] == case["b"]):
             acc.fail(kind, b[0], case, expected=b[1], got=b[2])
+        return
+    if kind == "epoch":
+        ra, rb, plat, impl = case["a"], case["b"], case["plat"], case["impl"]
+        pa, pb = epoch_admit(ra), epoch_admit(rb)
+        acc.oracle_evaluations += 1
+        A = EnvSpec.from_spec(ra, plat, impl[0], impl[1])
+        B = EnvSpec.from_spec(rb, plat, impl[0], impl[1])
+        for b in compare_laws(A, B, None, None, ra == rb):
+            acc.fail(kind, b[0] + ":epoch", case, expected=b[1], got=b[2])
+        acc.label("epoch-subset" if pa <= pb else "epoch-not-subset")
+        if not pa <= pb:
+            return
+        ca, cb = compat_set(ra, plat, impl, A), compat_set(rb, plat, impl, B)
+        if ra != rb and pa:
+            acc.nontriv([ra, rb, plat, impl])
+            acc.sample({"A": str(A), "B": str(B), "wheels_A": len(ca), "wheels_B": len(cb)}, "epoch")
+        if not ca <= cb:
+            lost = sorted(ca - cb)[0]
+            acc.fail(kind, f"monotone:wheel-lost-by-widening:epoch:{lost[0][:2]}", case, expected="compatible(A) <= compatible(B)", got={"lost": ["-".join(w) for w in sorted(ca - cb)[:4]]})
         return
     ra, rb, plat, impl = case["a"], case["b"], case["plat"], case["impl"]
     A_adm, B_adm = c08.Admit.of(ra), c08.Admit.of(rb)
